@@ -43,6 +43,9 @@ impl Deserializer {
     #[verifier::external_body] pub fn read_raw(&mut self, len: u64, out: &mut Vec<u8>) -> (r: Result<usize, CborError>)
         ensures old(self).rem().len() > 0 && old(self).rem()[0] is Payload && len == old(self).rem()[0]->Payload_0.len()
                     ==> r is Ok && final(out)@ == old(out)@ + old(self).rem()[0]->Payload_0 && final(self).rem() == old(self).rem().skip(1) { unimplemented!() }
+    #[verifier::external_body] pub fn array(&mut self) -> (r: Result<cbor_event::Len, CborError>)
+        ensures old(self).rem().len() > 0 && old(self).rem()[0] is Arr ==> r is Ok && r->Ok_0 == cbor_event::Len::Len(old(self).rem()[0]->Arr_0) && final(self).rem() == old(self).rem().skip(1),
+                old(self).rem().len() > 0 && old(self).rem()[0] is ArrIndef ==> r is Ok && r->Ok_0 is Indefinite && final(self).rem() == old(self).rem().skip(1) { unimplemented!() }
     #[verifier::external_body] pub fn tag(&mut self) -> (r: Result<u64, CborError>)
         ensures old(self).rem().len() > 0 && old(self).rem()[0] is Tag ==> r is Ok && r->Ok_0 == old(self).rem()[0]->Tag_0 && final(self).rem() == old(self).rem().skip(1),
                 // a typed token that is not a tag: an error, nothing consumed (cbor_event checks the type before it reads)
